@@ -183,7 +183,19 @@ pub fn builder_step_sel<const NF: usize, const NB: usize, const NB1: usize, cons
     let a2 = raw[11];
     let word = u32::from_le_bytes([raw[12], raw[13], raw[14], raw[15]]);
     let ended = raw[0] & 2 != 0;
-    let mut b = core::mem::ManuallyDrop::new(Builder::verif_from_parts(make_module_ended::<NF, NB, NB1, NI>(ended), next_id, sel_f, sel_b));
+    let mut module0 = make_module_ended::<NF, NB, NB1, NI>(ended);
+    // native replay only (CBMC explores the Nop-filled blocks): bit 2 makes every non-empty block end in a terminator, i.e. a block
+    // that was finished and then selected again for editing
+    if cfg!(not(kani)) && raw[0] & 4 != 0 {
+        for f in module0.functions.iter_mut() {
+            for blk in f.blocks.iter_mut() {
+                if let Some(l) = blk.instructions.last_mut() {
+                    *l = inst(spirv::Op::Return, None);
+                }
+            }
+        }
+    }
+    let mut b = core::mem::ManuallyDrop::new(Builder::verif_from_parts(module0, next_id, sel_f, sel_b));
     let before = counts(b.module_ref());
     let fn_open = sel_f.is_some();
     let blk_open = sel_b.is_some();
